@@ -170,6 +170,7 @@ public:
 static RecExpected expA(O_EXP_A), expB(O_EXP_B);
 static RecActual actA(O_ACT_A), actB(O_ACT_B);
 static int callsLeftAnswer;
+static int ignoredMode;   // 1: the support answers actualCall() as the real one does while mocking is disabled
 static MockFailureReporter* reporterSeen;
 static MockNamedValueComparator* comparatorSeen;
 static MockNamedValueCopier* copierSeen;
@@ -183,7 +184,14 @@ public:
     virtual void expectNoCall(const SimpleString& functionName) CPPUTEST_OVERRIDE { note(O_SUP, S_expectNoCall, NM(functionName)); }
     virtual MockExpectedCall& expectNCalls(unsigned int amount, const SimpleString& functionName) CPPUTEST_OVERRIDE { note(O_SUP, S_expectNCalls, NM(functionName), 0, amount); return expA; }
     // like the real createActualCall(): the call handed out is the support's "last actual call"
-    virtual MockActualCall& actualCall(const SimpleString& functionName) CPPUTEST_OVERRIDE { note(O_SUP, S_actualCall, NM(functionName)); lastActualFunctionCall_ = &actA; return actA; }
+    virtual MockActualCall& actualCall(const SimpleString& functionName) CPPUTEST_OVERRIDE
+    {
+        note(O_SUP, S_actualCall, NM(functionName));
+        // MockSupport::actualCall with enabled_ == false: no "last actual call", the shared ignoring call object is handed out
+        if (ignoredMode) { lastActualFunctionCall_ = NULLPTR; return MockIgnoredActualCall::instance(); }
+        lastActualFunctionCall_ = &actA;
+        return actA;
+    }
     virtual void disable() CPPUTEST_OVERRIDE { note(O_SUP, S_disable); }
     virtual void enable() CPPUTEST_OVERRIDE { note(O_SUP, S_enable); }
     virtual void tracing(bool enabled) CPPUTEST_OVERRIDE { note(O_SUP, S_tracing, 0, 0, enabled ? 1 : 0); }
@@ -523,6 +531,26 @@ int h_shared_members_differ(void)
 #undef SH
     return bad;
 }
+void h_set_ignored(int on) { ignoredMode = on; }
+// mock("d").xReturnValue(): the plain typed getters of the C++ MockSupport (real code) on the same state
+u64 h_cpp_support_get(int g)
+{
+    MockSupport& s = sup;
+    switch (g) {
+    case 0: return s.boolReturnValue() ? 1 : 0;
+    case 1: return (u64)(long long)s.intReturnValue();
+    case 2: return (u64)s.unsignedIntReturnValue();
+    case 3: return (u64)(long long)s.longIntReturnValue();
+    case 4: return (u64)s.unsignedLongIntReturnValue();
+    case 5: return (u64)s.longLongIntReturnValue();
+    case 6: return (u64)s.unsignedLongLongIntReturnValue();
+    case 7: return (u64)s.stringReturnValue();
+    case 8: return dbits(s.doubleReturnValue());
+    case 9: return (u64)s.pointerReturnValue();
+    case 10: return (u64)s.constPointerReturnValue();
+    default: return (u64)s.functionPointerReturnValue();
+    }
+}
 int h_has_return_value(int table) { return table == 0 ? ac->hasReturnValue() : ms->hasReturnValue(); }
 void h_return_value(int table) { mv = table == 0 ? ac->returnValue() : ms->returnValue(); }
 int h_mv_type(void) { return (int)mv.type; }
@@ -646,6 +674,22 @@ int h_mock_c_global(void)
     int after = mock().strictOrdering_ ? 1 : 0;
     return (g == ms ? 4 : 0) | (before << 1) | after;
 }
+// ---- findings, on the REAL engine (global MockSupport, no doubles)
+void h_real_select(void) { ms = mock_c(); }      // from here on h_sup / h_get(1, g) address the real global mock
+u64 h_real_cpp_disabled_get(int g)               // the C++ twin of: disable(); actualCall("f"); <g>ReturnValue()
+{
+    mock().disable();
+    mock().actualCall("f");
+    MockSupport& s = mock();
+    switch (g) {
+    case 0: return s.boolReturnValue() ? 1 : 0;
+    case 1: return (u64)(long long)s.intReturnValue();
+    case 7: return (u64)s.stringReturnValue();
+    case 8: return dbits(s.doubleReturnValue());
+    default: return (u64)s.pointerReturnValue();
+    }
+}
+u64 h_real_cpp_get_without_call(void) { return (u64)(long long)mock().intReturnValue(); }
 int h_reporter_seen(void) { return reporterSeen != 0; }
 int h_reporter_crash_flag(void) { return reporterSeen->crashOnFailure_ ? 1 : 0; }
 void h_mark_test_failed(void) { shell_->hasFailed_ = true; }
